@@ -26,6 +26,7 @@ deriving DecidableEq, Repr
 inductive Err where
   | valueError
   | assertionError
+  | notImplementedError
 deriving DecidableEq, Repr
 
 /-- the host grid (what `split_faces` reads and writes) and the `face_cells` matrices of its
@@ -165,6 +166,26 @@ structure Host.Valid (s : Host) : Prop where
   disjoint : ∀ i j g, i < s.nFr → j < s.nFr → i ≠ j → g < s.nF → (s.fc i g).isSome = true → s.fc j g = none
   inj : ∀ i g g' l, i < s.nFr → g < s.nF → g' < s.nF → s.fc i g = some l → s.fc i g' = some l → g = g'
   interior : ∀ i g, i < s.nFr → g < s.nF → (s.fc i g).isSome = true → s.rem g = false → s.Interior g
+
+/-- decidable form of `Interior` -/
+def Host.interiorB (s : Host) (g : Nat) : Bool :=
+  match s.inc g with
+  | [a, b] => (a.left != b.left) && (b.sign == -a.sign)
+  | _ => false
+
+/-- decidable form of `Valid` (checked by the driver on every correspondence case) -/
+def Host.validB (s : Host) : Bool :=
+  s.fcCols == s.nF &&
+  (List.range s.nFr).all (fun i => (List.range s.nF).all (fun g =>
+    match s.fc i g with
+    | none => true
+    | some l =>
+      (List.range s.nFr).all (fun j => j == i || (s.fc j g).isNone) &&
+      (List.range s.nF).all (fun g' => g' == g || s.fc i g' != some l) &&
+      (s.rem g || s.interiorB g)))
+
+/-- no face carries the fracture tag yet (fresh host grid) -/
+def Host.noFracB (s : Host) : Bool := (List.range s.nF).all (fun g => !s.frac g)
 
 /-! ### mortar cells (`create_interfaces`, `MortarGrid.__init__`, `_init_projections`) -/
 
@@ -481,5 +502,21 @@ def NodeGrid.duplicateNodes (g : NodeGrid) (split : List Nat) : Option NodeOut :
 inductive Conn (g : NodeGrid) (L : List Nat) : Nat → Nat → Prop
   | refl (a : Nat) : Conn g L a a
   | step {a b c : Nat} : Conn g L a b → b ∈ L → c ∈ L → g.adj b c = true → Conn g L a c
+
+/-! ## entry points (`meshing.cart_grid`, `meshing.tensor_grid`): argument handling -/
+
+/-- `cart_grid(fracs, nx, physdims=...)`: `ndim = len(nx)`; `physdims` defaults to `nx`, otherwise its
+    length must be `ndim` ("Physical dimension must equal grid dimension"); only 2 and 3 dimensions
+    are supported. Returns the dimension of the structured generator that is called. -/
+def cartGridDispatch (ndim : Nat) (physLen : Option Nat) : Except Err Nat :=
+  match physLen with
+  | some p =>
+    if p ≠ ndim then .error .valueError
+    else if ndim = 2 then .ok 2 else if ndim = 3 then .ok 3 else .error .valueError
+  | none => if ndim = 2 then .ok 2 else if ndim = 3 then .ok 3 else .error .valueError
+
+/-- `tensor_grid(fracs, x, y=None, z=None)` -/
+def tensorGridDispatch (hasY hasZ : Bool) : Except Err Nat :=
+  if !hasY then .error .notImplementedError else if !hasZ then .ok 2 else .ok 3
 
 end PorepyVerif.C25
